@@ -2109,7 +2109,7 @@ func (e *mcFsEngine) run() {
 			art = mcRenamed(base, fmt.Sprintf("%s %d", base.Manifest.Name, i))
 		}
 		d := w.Deploy(fmt.Sprintf("alphabet%d", i), art,
-			[]any{false, w.C["netmap"].Hash, e.proxy, fmt.Sprintf("A%d", i), int64(idx), int64(n)})
+			[]any{false, w.C["netmap"].Hash, e.proxy, []string{"\u2c00\u2c38\u2c4f", "buky", "V\u011bd\u011b"}[i], int64(idx), int64(n)})
 		e.cs = append(e.cs, &mcFsContract{d: d, index: idx, neo: new(big.Int)})
 	}
 	e.r.Sweep = func() []string {
